@@ -130,3 +130,22 @@ def register() -> None:
 
 def touch_exists(path: str) -> bool:
     return os.path.exists(path)
+
+
+SAMPLES: dict = {}
+
+
+class VSamplerProbe(FloatProbe):
+    """Records registry / gc population when ``idx`` is one of the sampling indexes (used inside launches, C18)."""
+
+    def _process_logic(self, data, idx, sample_at: list = None):
+        if sample_at and idx in sample_at:
+            import gc
+
+            from semantiva.core.semantiva_component import get_component_registry
+
+            gc.collect()
+            reg = get_component_registry()
+            SAMPLES[idx] = {"registry": sum(len(v) for v in reg.values()), "objects": len(gc.get_objects()),
+                            "buckets": {k: len(v) for k, v in reg.items()}}
+        return data.data
